@@ -647,12 +647,40 @@ func RuleImmutable(r *Report, p *Program) {
 	// constructor stores clones
 	{
 		bad := "constructor never stores a controller"
-		for _, b := range ctor.Blocks {
-			for _, in := range b.Instrs {
-				if mu, ok := in.(*ssa.MapUpdate); ok {
+		// the constructor and the in-module helpers it calls (a clone-into-map loop may live in a helper)
+		var fns []*ssa.Function
+		seenFn := map[*ssa.Function]bool{}
+		var gather func(f *ssa.Function, depth int)
+		gather = func(f *ssa.Function, depth int) {
+			if f == nil || f.Blocks == nil || seenFn[f] || depth > 3 {
+				return
+			}
+			seenFn[f] = true
+			fns = append(fns, f)
+			for _, c := range staticCallees(f) {
+				if inModule(c) && c.Name() != "Clone" {
+					gather(c, depth+1)
+				}
+			}
+		}
+		gather(ctor, 0)
+		for _, f := range fns {
+			for _, b := range f.Blocks {
+				for _, in := range b.Instrs {
+					mu, ok := in.(*ssa.MapUpdate)
+					if !ok {
+						continue
+					}
+					// only maps of controllers (value type with a Clone method)
+					mt, ok := mu.Map.Type().Underlying().(*types.Map)
+					if !ok || methodOfType(p, mt.Elem(), "Clone") == nil {
+						continue
+					}
 					if call, ok := mu.Value.(*ssa.Call); ok {
-						if f := call.Call.StaticCallee(); f != nil && f.Name() == "Clone" {
-							bad = ""
+						if cf := call.Call.StaticCallee(); cf != nil && cf.Name() == "Clone" {
+							if bad == "constructor never stores a controller" {
+								bad = ""
+							}
 							continue
 						}
 					}
@@ -739,4 +767,17 @@ func storageIDs(t *Term) map[string]bool {
 	}
 	walk(t)
 	return out
+}
+
+// methodOfType: the method `name` of t or *t, if any.
+func methodOfType(p *Program, t types.Type, name string) *ssa.Function {
+	for _, typ := range []types.Type{t, types.NewPointer(t)} {
+		ms := p.SSA.MethodSets.MethodSet(typ)
+		for i := 0; i < ms.Len(); i++ {
+			if ms.At(i).Obj().Name() == name {
+				return p.SSA.MethodValue(ms.At(i))
+			}
+		}
+	}
+	return nil
 }
